@@ -74,6 +74,10 @@ Definition current : variant := mkV true true true.
 
 Record dstate := mkD {
   d_var : variant;
+  d_subs : list N;           (* source nodes of the filters given to OpenDownstream, duplicates allowed:
+                                the wire connection keeps ONE channel per (stream alias, node) - a second
+                                subscription of the same node replaces the first - so a node is either
+                                subscribed or not, and its metadata are forwarded by one goroutine, in order *)
   d_cap : N;                 (* capacity of dataPointsCh and metadataCh (1024) *)
   d_tabs : dtabs;
   d_bufs : dbufs;
@@ -94,8 +98,8 @@ Fixpoint prereg (ids : list N) (t : dtabs) : dtabs :=
       prereg r (mkT (insert a id (t_aliases t)) (insert id a (t_rev t)) a (t_upinfos t) (t_upgen t))
   end.
 
-Definition dinit (v : variant) (cap : N) (pre : list N) : dstate :=
-  mkD v cap (prereg pre (mkT [] [] 0 [] 0)) (mkB [] [] [] 0) [] [] false.
+Definition dinit (v : variant) (fl : list N) (cap : N) (pre : list N) : dstate :=
+  mkD v fl cap (prereg pre (mkT [] [] 0 [] 0)) (mkB [] [] [] 0) [] [] false.
 
 (* assignUpstreamInfoAlias *)
 Definition assign_up (fx : bool) (t : dtabs) (info ptr : N) : dtabs * lmap N :=
@@ -180,15 +184,15 @@ Inductive dev :=
 | Close.
 
 Definition set_tabs (s : dstate) (t : dtabs) : dstate :=
-  mkD (d_var s) (d_cap s) t (d_bufs s) (d_inbox s) (d_metabox s) (d_closed s).
+  mkD (d_var s) (d_subs s) (d_cap s) t (d_bufs s) (d_inbox s) (d_metabox s) (d_closed s).
 Definition set_bufs (s : dstate) (b : dbufs) : dstate :=
-  mkD (d_var s) (d_cap s) (d_tabs s) b (d_inbox s) (d_metabox s) (d_closed s).
+  mkD (d_var s) (d_subs s) (d_cap s) (d_tabs s) b (d_inbox s) (d_metabox s) (d_closed s).
 Definition set_inbox (s : dstate) (l : list chunk) : dstate :=
-  mkD (d_var s) (d_cap s) (d_tabs s) (d_bufs s) l (d_metabox s) (d_closed s).
+  mkD (d_var s) (d_subs s) (d_cap s) (d_tabs s) (d_bufs s) l (d_metabox s) (d_closed s).
 Definition set_metabox (s : dstate) (l : list meta) : dstate :=
-  mkD (d_var s) (d_cap s) (d_tabs s) (d_bufs s) (d_inbox s) l (d_closed s).
+  mkD (d_var s) (d_subs s) (d_cap s) (d_tabs s) (d_bufs s) (d_inbox s) l (d_closed s).
 Definition set_closed (s : dstate) : dstate :=
-  mkD (d_var s) (d_cap s) (d_tabs s) (d_bufs s) (d_inbox s) (d_metabox s) true.
+  mkD (d_var s) (d_subs s) (d_cap s) (d_tabs s) (d_bufs s) (d_inbox s) (d_metabox s) true.
 
 (* the body of ReadDataPoints once a chunk has been taken from the queue *)
 Definition do_read (s : dstate) (c : chunk) (rest : list chunk) : dstate * list dout :=
@@ -197,7 +201,7 @@ Definition do_read (s : dstate) (c : chunk) (rest : list chunk) : dstate * list 
   let t := fst r2 in
   let b := d_bufs s in
   let b1 := mkB (push (snd r1) (b_up b)) (push (snd r2) (b_id b)) (b_res b) (b_ackid b) in
-  let s1 := mkD (d_var s) (d_cap s) t b1 rest (d_metabox s) (d_closed s) in
+  let s1 := mkD (d_var s) (d_subs s) (d_cap s) t b1 rest (d_metabox s) (d_closed s) in
   match resolve_up t (ck_up c) with
   | None => (s1, [ORead (Some c) None 1 (snd r1) (snd r2)])
   | Some info =>
@@ -221,6 +225,9 @@ Definition flush (sent : bool) (s : dstate) : dstate * list dout :=
       else (set_bufs s (mkB (b_up b) (b_id b) (b_res b) a), [OAck sent a (b_up b) (b_id b) (b_res b)])
   end.
 
+(* wire/client_conn.go readDownstreamMetadataLoop: metadata of a node without table entry are discarded *)
+Definition subscribed (subs : list N) (src : N) : bool := existsb (N.eqb src) subs.
+
 Definition dstep (s : dstate) (e : dev) : dstate * list dout :=
   match e with
   | Arrive c =>
@@ -229,8 +236,9 @@ Definition dstep (s : dstate) (e : dev) : dstate * list dout :=
       else (s, [])
   | ArriveMeta m =>
       if d_closed s then (s, [])
-      else if N.of_nat (length (d_metabox s)) <? d_cap s then (set_metabox s (d_metabox s ++ [m]), [])
-      else (s, [])
+      else if subscribed (d_subs s) (m_src m) && (N.of_nat (length (d_metabox s)) <? d_cap s)
+           then (set_metabox s (d_metabox s ++ [m]), [])
+           else (s, [])
   | Read pick =>
       if d_closed s && (v_strict (d_var s) || negb pick) then (s, [ORead None None 4 [] []])
       else
@@ -394,7 +402,8 @@ Fixpoint seq_from (n : N) (l : list N) : bool :=
 (* correspondence case *)
 
 Record ds_case := mkDsCase {
-  dc_pre : list N;                 (* WithDownstreamDataIDs, in order *)
+  dc_filters : list N;             (* source node of every DownstreamFilter given to OpenDownstream, in order *)
+  dc_pre : list N;                 (* WithDownstreamDataIDs, in order (repeated ids are legal) *)
   dc_evs : list dev;               (* the history the harness drove; AckTick true = the harness
                                       waited until the broker had received everything pending *)
   (* observations on the real code *)
@@ -410,7 +419,7 @@ Record ds_case := mkDsCase {
 }.
 
 Definition ds_model (c : ds_case) : dstate * list dout :=
-  drun (dinit current inbox_cap (dc_pre c)) (dc_evs c).
+  drun (dinit current (dc_filters c) inbox_cap (dc_pre c)) (dc_evs c).
 
 Definition has_close (evs : list dev) : bool :=
   existsb (fun e => match e with Close => true | _ => false end) evs.
@@ -420,7 +429,7 @@ Definition ds_corr (c : ds_case) : bool :=
   let r := ds_model c in
   let outs := snd r in
   let st := fst r in
-  lmapN_eqb (t_aliases (d_tabs (dinit current inbox_cap (dc_pre c)))) (dc_open c)
+  lmapN_eqb (t_aliases (d_tabs (dinit current (dc_filters c) inbox_cap (dc_pre c)))) (dc_open c)
   && list_beq _ robs_eqb (reads_of outs) (dc_reads c)
   && dc_stable c
   && list_beq _ mobs_eqb (metas_of outs) (dc_metas c)
@@ -437,15 +446,18 @@ Definition ds_corr (c : ds_case) : bool :=
 
 (* the consumer keeps up: the number of queued items never exceeds the capacity, and nothing
    arrives after Close *)
-Fixpoint keeps_up (cap : N) (q qm : N) (closed : bool) (evs : list dev) : bool :=
+Fixpoint keeps_up (subs : list N) (cap : N) (q qm : N) (closed : bool) (evs : list dev) : bool :=
   match evs with
   | [] => true
-  | Arrive _ :: r => negb closed && (q <? cap) && keeps_up cap (q + 1) qm closed r
-  | ArriveMeta _ :: r => negb closed && (qm <? cap) && keeps_up cap q (qm + 1) closed r
-  | Read _ :: r => keeps_up cap (q - 1) qm closed r
-  | ReadMeta _ :: r => keeps_up cap q (qm - 1) closed r
-  | AckTick _ :: r => keeps_up cap q qm closed r
-  | Close :: r => keeps_up cap q qm true r
+  | Arrive _ :: r => negb closed && (q <? cap) && keeps_up subs cap (q + 1) qm closed r
+  | ArriveMeta m :: r =>
+      negb closed &&
+      (if subscribed subs (m_src m) then (qm <? cap) && keeps_up subs cap q (qm + 1) closed r
+       else keeps_up subs cap q qm closed r)
+  | Read _ :: r => keeps_up subs cap (q - 1) qm closed r
+  | ReadMeta _ :: r => keeps_up subs cap q (qm - 1) closed r
+  | AckTick _ :: r => keeps_up subs cap q qm closed r
+  | Close :: r => keeps_up subs cap q qm true r
   end.
 
 (* walk the history with a FIFO of the arrived chunks and the tables the client has shown so far *)
@@ -474,11 +486,12 @@ Fixpoint c03_walk (evs : list dev) (reads : list robs) (q : list chunk) (tu ti :
   | _ :: r => c03_walk r reads q tu ti closed
   end.
 
-Fixpoint arrived_metas (evs : list dev) : list meta :=
+(* the metadata the broker sent from subscribed source nodes *)
+Fixpoint arrived_metas (subs : list N) (evs : list dev) : list meta :=
   match evs with
   | [] => []
-  | ArriveMeta m :: r => m :: arrived_metas r
-  | _ :: r => arrived_metas r
+  | ArriveMeta m :: r => if subscribed subs (m_src m) then m :: arrived_metas subs r else arrived_metas subs r
+  | _ :: r => arrived_metas subs r
   end.
 Fixpoint returned_metas (l : list (option (N * N) * N)) : list (N * N) :=
   match l with
@@ -514,10 +527,10 @@ Fixpoint meta_walk (ret : list (N * N)) (acks : list N) (arr : list meta) : bool
   end.
 
 Definition c03_ok (c : ds_case) : bool :=
-  if keeps_up inbox_cap 0 0 false (dc_evs c) then
+  if keeps_up (dc_filters c) inbox_cap 0 0 false (dc_evs c) then
     c03_walk (dc_evs c) (dc_reads c) [] [] (dc_open c) false
     && dc_stable c
-    && meta_walk (returned_metas (dc_metas c)) (dc_metaacks c) (arrived_metas (dc_evs c))
+    && meta_walk (returned_metas (dc_metas c)) (dc_metaacks c) (arrived_metas (dc_filters c) (dc_evs c))
   else true.
 
 (* --- C04 predicate --- *)
@@ -582,7 +595,7 @@ Definition c04_ok (c : ds_case) : bool :=
   (* exactly the aliases the client entered into its tables are announced, once, in order *)
   && lmapN_eqb au (shown_ups (dc_reads c)) && lmapN_eqb ai (shown_ids (dc_reads c))
   (* everything seen in full form has an announced (or pre-registered) alias *)
-  && (if keeps_up inbox_cap 0 0 false (dc_evs c) then
+  && (if keeps_up (dc_filters c) inbox_cap 0 0 false (dc_evs c) then
         forallb (fun i => existsb (N.eqb i) (map snd au)) (fst seen)
         && forallb (fun i => existsb (N.eqb i) (map snd (dc_open c ++ ai))) (snd seen)
       else true)
